@@ -146,6 +146,54 @@ def many_lines(case):
     return {"ok": not fails, "failures": fails[:4], "outcome": "many-lines-ok" if not fails else "many-lines-mismatch", "nontrivial": True, "n": 1}
 
 
+# times of day at every order of magnitude of the ms / us counters (a counter below 1000, 60000, 86400, 3.6e6 ... is
+# where a unit mix-up or a truncated division shows)
+SWEEP_MS = (1, 999, 1000, 1001, 30000, 59999, 60000, 86399, 86400, 86401, 3_599_999, 3_600_000, 36_000_000, 43_200_000, 86_399_000, 86_399_998)
+SWEEP_DAYS = ((2016, 60), (2021, 168), (2049, 365), (2014, 1))
+
+
+def sweep(case):
+    fails, n, seen = [], 0, set()
+    y, doy = case["day"]
+    for i, msod in enumerate(SWEEP_MS):
+        hmsm = (msod // 3_600_000, msod // 60000 % 60, msod // 1000 % 60, msod % 1000)
+        for level in ("1.5", "1.1"):
+            n += 1
+            for f in one(level, y, doy, hmsm, US_EXTRA[i % 3]):
+                k = core.jkey(f["sig"])
+                if k not in seen:
+                    seen.add(k)
+                    f["case"] = {"fn": "sweep", "day": [y, doy]}
+                    fails.append(f)
+    return {"ok": not fails, "failures": fails, "outcome": "ok" if not fails else "mismatch", "nontrivial": True, "n": n}
+
+
+FIRST_POINT_SECONDS = ("0.000001", "0.0000004", "0.9999996", "59.9999996", "86399.5", "86399.999999", "86399.9999996", "8.6399999E+04", "8.639999999999999E+04", "4.32E+04", "1", "86399")
+
+
+def first_point(case):
+    """decimal seconds of the platform-position first point, up to the last representable instant of the day"""
+    y, mo, d = case["date"]
+    fails = []
+    for text in FIRST_POINT_SECONDS:
+        spec = treecheck.spec_from_case({"spec": {"level": "1.5", "images": [["HH", None, 1, 1]], "leader": {"n_att": 1, "n_chan": 1}}})
+        spec = synth.with_dev(spec, "led", "platform_position", "datetime_of_first_point.date", f"{y:04d}  {mo:02d}  {d:02d}".encode())
+        spec = synth.with_dev(spec, "led", "platform_position", "datetime_of_first_point.seconds_of_day", text)
+        files, _ = synth.build(spec)
+        with harness.Product(files, "mcfs") as prod:
+            try:
+                tree = prod.open()
+                got = tree["metadata/platform_position"].attrs["datetime_of_first_point"]
+                got_ns = ns_of(dt.datetime.fromisoformat(got))
+            except Exception as e:
+                fails.append({"sig": {"kind": "first-point-raises", "exc": type(e).__name__}, "detail": f"first point {y}-{mo}-{d} + {text} s: {type(e).__name__}: {str(e)[:100]}", "case": {**case, "fn": "first_point"}})
+                continue
+        want_ns = ns_of(dt.datetime(y, mo, d)) + round(float(text) * 1e6) * 1000
+        if abs(got_ns - want_ns) > 1000:  # the stored resolution of datetime is 1 us: rounding or truncation are both fine
+            fails.append({"sig": {"kind": "first-point", "leaf": "/metadata/platform_position@datetime_of_first_point", "delta_s": round((got_ns - want_ns) / 1e9)}, "detail": f"first point {y}-{mo:02d}-{d:02d} + {text} s reads back as {got} (off by {(got_ns - want_ns) / 1e9} s)", "case": {**case, "fn": "first_point"}})
+    return {"ok": not fails, "failures": fails[:3], "outcome": "first-point-ok" if not fails else "first-point", "nontrivial": True, "n": len(FIRST_POINT_SECONDS)}
+
+
 def execute(case):
     fails, n = [], 0
     seen = set()
@@ -166,13 +214,19 @@ def run(res, tier, seed):
         "instants = (every day [thorough] | days 1,2,59,60,61,365,366 [quick]) of every year 2014..2049 x times 00:00:00.000,"
         " 12:34:56.789, 23:59:59.999 (+0/1/999 us for the us-of-day stamp) x levels 1.5 and 1.1; each instant is written into all"
         " time fields of one product at once; every time leaf is compared with the instant (and the whole tree with the"
-        " reference model); plus images of 1025/1100/2049 lines (all per-line leaves compared) so that bulk code paths above the default"
+        " reference model); plus 16 times of day at every order of magnitude of the ms/us counters (1 ms .. 86 399 998 ms) on 4 days; plus 12 decimal-second texts of the" " platform-position first point up to 86399.9999996 s on 4 dates (1 us tolerance); plus images of 1025/1100/2049 lines (all per-line leaves compared) so that bulk code paths above the default"
         " 1024-line chunk are exercised. A case is a batch of 6 days; all distinct, all non-trivial."
     )
     res.assumptions = ["day-of-year 1 = 1 January as the property states; leap seconds are not modelled"]
     n = 0
     for idx, case, out in core.pool_map(__name__, "execute", plan(tier), chunksize=1):
         res.record(case, out, order=idx)
+        n += out["n"]
+    for idx, case, out in core.pool_map(__name__, "sweep", [{"day": list(d)} for d in SWEEP_DAYS], chunksize=1):
+        res.record({**case, "fn": "sweep"}, out, order=2 * 10**6 + idx)
+        n += out["n"]
+    for idx, case, out in core.pool_map(__name__, "first_point", [{"date": list(d)} for d in ((2016, 2, 29), (2014, 8, 29), (2049, 12, 30), (2015, 1, 1))], chunksize=1):
+        res.record({**case, "fn": "first_point"}, out, order=3 * 10**6 + idx)
         n += out["n"]
     big = [{"level": lv, "lines": L, "rpc": rpc} for lv in ("1.5", "1.1") for L, rpc in ((1025, None), (1100, 512), (2049, None))]
     for idx, case, out in core.pool_map(__name__, "many_lines", big, chunksize=1):
